@@ -666,6 +666,36 @@ def guard_for_bounds(E, body, site):
         return None
 
     target_slice = slice_of(ln)
+    # `s[i]` where i is the payload of `s.iter().position(..)` / `rposition(..)` over the very same slice: an index of an
+    # element that exists
+    if ixs[0] == "place" and isinstance(ixs[1], tuple) and ixs[1][0] == "call" and \
+            ixs[1][1].split("::")[-1] in ("position", "rposition") and any(p[0] == "field" and p[2] == "Some" for p in ixs[4]):
+        recv = ixs[1][2][0] if ixs[1][2] else None
+        it = strip_expr(recv) if recv is not None else None
+        while it is not None and it[0] in ("ref",):
+            it = strip_expr(it[1])
+        if it is not None and it[0] == "call" and it[1].split("::")[-1] in ("iter", "iter_mut") and it[2]:
+            it = ("call", "iter", [it[2][0]])
+        elif it is not None:
+            it = ("call", "iter", [it])       # strip_expr already looked through `.iter()`
+        if it is not None:
+            over = strip_expr(it[2][0])
+
+            def core(x):
+                # peel reborrows: &*&*x -> x
+                for _ in range(10):
+                    x = strip_expr(x)
+                    if x[0] == "ref":
+                        x = x[1]
+                    elif x[0] == "place" and not x[2] and all(p[0] == "deref" for p in x[4]):
+                        x = x[1]
+                    else:
+                        break
+                return x
+            co, ct = core(over), (core(target_slice) if target_slice is not None else None)
+            same_call = ct is not None and co[0] == "call" and ct[0] == "call" and len(co) > 3 and len(ct) > 3 and co[3] is ct[3]
+            if target_slice is not None and (same_call or _norm_e(co) == _norm_e(ct)):
+                return "the index is the payload of %s() over the same slice" % ixs[1][1].split("::")[-1]
     for b in sorted(body.reachable()):
         t = body.term(b)
         if t["k"] != "switch" or not body.dominates(b, site.bb) or b == site.bb:
